@@ -343,6 +343,9 @@ func (p *parser) snapshotEntry(tid int, pc *pendingCall) {
 	if name == "close" {
 		delete(p.fds, key)
 	}
+	if (name == "fsync" || name == "fdatasync") && st != nil && !st.gone && !st.dir && st.name != "" {
+		p.emit(Event{Line: pc.line, Kind: FsyncStart, Path: st.name})
+	}
 }
 
 func (p *parser) flushPending(tid int) {
